@@ -164,7 +164,7 @@ def gen_cases(rng, tier, budget):
     nseq = (budget or 700) if quick else (budget or 20000)
     for i in range(nseq):
         cases.append(gen_seq(rng, long=(i % 10 == 0)))
-    rounds = 15000 if quick else 60000
+    rounds = 6000 if quick else 60000
     for name, kind, cap, nl, setup, progs in SCENARIOS:
         cases.append(conc_line(kind, cap, nl, rounds, 0, setup, progs))
     for name, kind, cap, nl, setup, progs in SCENARIOS[:3] + SCENARIOS[5:6]:
@@ -172,7 +172,7 @@ def gen_cases(rng, tier, budget):
     for _ in range(6 if quick else 120):
         cases.append(gen_conc_random(rng, rounds // 2))
     # the same under the race detector (different scheduling, and data races would fail the run)
-    rr = 2500 if quick else 12000
+    rr = 1500 if quick else 12000
     for name, kind, cap, nl, setup, progs in (SCENARIOS[1:2] + SCENARIOS[5:6] + SCENARIOS[7:8]) if quick else SCENARIOS:
         cases.append(conc_line(kind, cap, nl, rr, 1, setup, progs, race=True))
     for _ in range(2 if quick else 30):
